@@ -243,6 +243,18 @@ def accessor_cases(ck, rnd, n):
         if k != "mid" or zk in ("fixed", "iana"):
             acc.nt([name, us, env.get("z")])
         ck.run(name, node, env, k, zone_kind=zk)
+        if rnd.random() < 0.2:
+            # other instants inside the same second, same zone argument, right afterwards (sub-second fields must follow the instant)
+            for _ in range(2):
+                us2 = us - us % 10**6 + rnd.choice([0, 1, 999, 1000, 250000, 500000, 750000, 999000, 999999, rnd.randint(0, 999999)])
+                if not (MV.TS_MIN_US <= us2 <= MV.TS_MAX_US):
+                    continue
+                env2 = dict(env, t=("ts", us2))
+                name2 = "getMilliseconds" if rnd.random() < 0.7 else name
+                node2 = Node("meth", "int", name2, *node.a[1:])
+                acc.hook("accessor")
+                acc.nt([name2, us2, env.get("z"), "same-second"])
+                ck.run(name2, node2, env2, ts_kind(us2), zone_kind=zk)
         if rnd.random() < 0.08 and zk != "none":
             # literal forms too
             lit = Node("meth", "int", name, Node("lit", "ts", ("ts", us)), Node("lit", "string", env["z"]))
